@@ -214,6 +214,23 @@ _p('C05', 'The instance model stays coherent under any history of edits',
             ('R4', 'Model.add_asset'), ('R4', 'Model.add_attacker'), ('R5', 'Model.add_asset'),
             ('R5', 'Model.remove_asset_from_association')])
 
+_p('C06', 'A model can only hold what the language allows',
+   ['R17', 'R8', 'R18', 'R20'],
+   decided=['R17 T11a: per asset the schema entry has id/type, allOf to every direct super asset, and for every '
+            'defense step a number property with minimum 0, maximum 1 and default 1.0 iff its TTC is Enabled else 0.0',
+            'R17 T11b: per association an array field per end typed by $ref to the declared asset of that end, '
+            'maxItems iff a maximum exists; same-named associations get name_left_right sub-entries under oneOf',
+            'R17 T11c: get_association_by_signature tries the direct orientation before the flipped one and raises '
+            'when neither exists; R8vii: it builds the sub-entry name with the template the generator uses',
+            'R17 T12: _validate_association rejects identical association, repeated asset inside a field and an '
+            'already linked pair - no check can be skipped; add_association validates before any write',
+            'R18: association_exists_between_assets constrains both ends'],
+   undecided=['that python_jsonschema_objects enforces the schema (trusted third party)',
+              'subtype acceptance through allOf'],
+   anchors=[('R17', 'LanguageClassesFactory._generate_assets'), ('R17', 'LanguageClassesFactory._generate_associations'),
+            ('R17', 'LanguageClassesFactory.get_association_by_signature'), ('R17', 'Model._validate_association'),
+            ('R17', 'Model.add_association')], floor=5)
+
 _p('C07', 'Saving and loading a model preserves it (JSON and YAML)',
    ['R8', 'R4', 'R15'],
    decided=['R8 i-ii: every key Model._to_dict (with asset/association/attacker_to_dict) writes is read by '
